@@ -106,7 +106,7 @@ PROPS = {
     },
     "C03": {
         "n": {"quick": 250, "thorough": 6000},
-        "cone": ["Bytes", "BytesLemmas", "Regex", "Generated", "Netconf", "NetconfLemmas", "NcSession"],
+        "cone": ["Bytes", "BytesLemmas", "Regex", "Generated", "Netconf", "NetconfLemmas", "NcSession", "NcSessionLemmas", "NcSegLemmas", "NcExtraLemmas"],
         "rx": True,
         "rule": "netconf.Driver over the simulated transport against a NETCONF server model whose request parser is a strict RFC 6242 / "
                 "end-of-message decoder: sessions of 1-12 requests over all operations (get, get-config, edit-config, copy/delete-config, "
@@ -118,8 +118,9 @@ PROPS = {
                       "the marker, FramedInput = frame(Input); request templates carry the caller's arguments (NcSessionLemmas). The hand-written "
                       "XML templates are tied to encoding/xml by byte-for-byte comparison of every request the real driver writes.",
         "level_note": "Trusted: kernel; generated constants and the emptyTags regex AST; extraction; harness server model. encoding/xml is an "
-                      "oracle whose output the templates are compared with on every case. Force-self-closing is modelled with the regex engine "
-                      "and compared differentially; no general theorem about it yet.",
+                      "oracle whose output the templates are compared with on every case. Every operation's payload is given as an explicit term of the caller's arguments "
+                      "(C03_get .. C03_commit, C03_every_payload_in_rpc); force-self-closing: C03_force_option_local (the forced message is exactly the rewriting of the unforced one) "
+                      "and C03_force_option_noop (no empty element pair: unchanged); what the rewriting does to a pair is the regex engine's (compared differentially).",
         "assumptions": ["argument strings are valid UTF-8 without XML-invalid control characters (encoding/xml would substitute U+FFFD)"],
     },
     "C04": {
@@ -149,7 +150,7 @@ PROPS = {
         "pf": True,
         "n": {"quick": 220, "thorough": 6000},
         "compare": "member",
-        "cone": ["Bytes", "Regex", "Generated", "Channel", "Network", "Replay", "SessionLemmas", "Netconf", "NcSession"],
+        "cone": ["Bytes", "Regex", "Generated", "Channel", "Network", "Replay", "SessionLemmas", "Netconf", "NcSession", "NcSessionLemmas", "NcSegLemmas", "NcExtraLemmas"],
         "rx": True,
         "rule": "CLI sessions (generic SendCommand / GetPrompt / SendInteractive, network SendCommand with an implicit privilege change, AcquirePriv) "
                 "with the device going silent after byte k of the exchange: k from a dry run of the same case, every k of one small exchange "
@@ -164,13 +165,13 @@ PROPS = {
                       "consumes nothing more (SessionLemmas.failed_is_final, deadline_at_until: proved for all schedules). Tied to the code by "
                       "replaying real stalled sessions incl. recovery.",
         "level_note": "Partial: 'within timeout plus slack' is wall-clock; proved as 'fails at the deadline event, consumes nothing afterwards', measured "
-                      "on every case. Timeout precedence (get_timeout) and per-program timeout theorems: ChanTraceLemmas (when built).",
+                      "on every case. NETCONF: C05_rpc_timeout (deadline of an RPC -> timeout error even if the reply was filed meanwhile) and C05_rpc_next_request_fresh_id (the id advances all the same).",
     },
     "C06": {
         "pf": True,
         "n": {"quick": 220, "thorough": 6000},
         "compare": "member",
-        "cone": ["Bytes", "Regex", "Generated", "Channel", "Network", "Replay", "SessionLemmas"],
+        "cone": ["Bytes", "Regex", "Generated", "Channel", "Network", "Replay", "SessionLemmas", "Netconf", "NcSession", "NcSessionLemmas", "NcSegLemmas", "NcExtraLemmas"],
         "rx": True,
         "rule": "the same CLI sessions with the transport reporting end-of-stream / a persistent read error after byte k, or failing a write; the "
                 "model prints every legal outcome of the race between the loss and the operation's consumption of already-queued chunks (the "
@@ -181,7 +182,7 @@ PROPS = {
                       "same all-schedule lemmas as C05; tied to the code by replaying real sessions with injected losses (membership in the model's "
                       "legal-outcome set).",
         "level_note": "Partial: 'promptly' is wall-clock (measured); write failures are outside the operation language (oracle only); NETCONF error "
-                      "forwarding is covered by the C07 scenarios and C08 sessions. Theorem C06_no_panic for shutdown: see C07.",
+                      "forwarding: C06_rpc_error (a forwarded transport error fails the RPC in flight, winning over timer and reply) plus the C07 scenarios and C08 sessions. No-panic for shutdown: C07.",
     },
     "C07": {
         "n": {"quick": 60, "thorough": 1500},
@@ -222,7 +223,7 @@ PROPS = {
     },
     "C08": {
         "n": {"quick": 120, "thorough": 5000},
-        "cone": ["Bytes", "BytesLemmas", "Regex", "Generated", "Netconf", "NetconfLemmas", "NcSession", "NcSessionLemmas", "NcSegLemmas"],
+        "cone": ["Bytes", "BytesLemmas", "Regex", "Generated", "Netconf", "NetconfLemmas", "NcSession", "NcSessionLemmas", "NcSegLemmas", "NcExtraLemmas"],
         "rx": True,
         "rule": NC_RULE + " Histories of 1-25 RPCs with 60 ms timeouts and late replies; non-trivial = more than one request.",
         "level_text": "C08_reply_never_lost / _message_any_split: for any cut of a reply into reads (no boundary making a proper prefix look complete) the call carrying its message-id returns it, other ids' entries untouched. Theorems C08_ids / _own_reply / _own_request / _complete_message_filed / _incomplete_kept / _late_reply_harmless / _no_panic over the "
@@ -348,7 +349,7 @@ PROPS = {
     "C12": {
         "pf": True,
         "n": {"quick": 240, "thorough": 8000},
-        "cone": ["Bytes", "Regex", "Generated", "Channel", "Network", "ChanTrace", "ChanTraceLemmas", "Replay"],
+        "cone": ["Bytes", "Regex", "Generated", "Channel", "Network", "ChanTrace", "ChanTraceLemmas", "InteractiveLemmas", "Replay"],
         "rx": True,
         "rule": "SendInteractive dialogues (1-5 events, visible/hidden, with/without expected response, completion patterns) against a scripted "
                 "device whose reactions become readable only after a delay (0 / 0.3 / 1.5 ms) so that typing ahead is observable (bytes delivered "
@@ -359,7 +360,7 @@ PROPS = {
         "level_text": "Theorems C12_* over every path (hence every execution): shape of interactive sends (each input only after the read for the "
                       "previous event returned; hidden inputs redacted, no echo read), return only after the echo read, and the secondary secret "
                       "written only directly after a read on which the escalation prompt matched and no completion pattern did.",
-        "level_note": "C12_secret_guarded carries the hypothesis that a completion pattern matching the search window also matches the whole buffer "
+        "level_note": "C12_result_whole: a successful interactive send returns processOut of everything its read-untils returned (echo reads included), a failed one the error of the read-until that received it and no partial dialogue; C12_send_input_result / _get_prompt_result likewise. C12_secret_guarded carries the hypothesis that a completion pattern matching the search window also matches the whole buffer "
                       "(true for line-anchored patterns when the window starts at a line boundary); C12_window_refuted shows why.",
     },
     "C13": {
